@@ -2,10 +2,10 @@
 # Re-runs the quick check(s) of every seeded defect under /verif/seeded against the CURRENT
 # /repo HEAD + CURRENT harness (scratch worktree + scratch harness copy; /repo and
 # /verif/harness are not modified). Writes /verif/out/seed-table.md.
-# usage: tools/check_seeds.sh [pattern]
+# usage: [SEED_SCRATCH=dir SEED_TABLE=file] tools/check_seeds.sh [pattern]   (several lanes can run side by side)
 pat="${1:-*}"
-R=/var/tmp/seedcheck; mkdir -p $R
-out=/verif/out/seed-table.md
+R=${SEED_SCRATCH:-/var/tmp/seedcheck}; mkdir -p $R
+out=${SEED_TABLE:-/verif/out/seed-table.md}
 echo "| seed | property | title | patch applies | check | exit | signature |" > $out
 echo "|---|---|---|---|---|---|---|" >> $out
 for d in /verif/seeded/$pat/; do
